@@ -349,6 +349,26 @@ func checkEngineParsing(c *Ctx, r *Report, cl map[string]string) {
 				if !strings.Contains(src, "isM_NameExists") {
 					viol = fmt.Sprintf("%s %s arm: presence flag is<Name>Exists is not computed", en, loc)
 				}
+				// ... by asking the request whether the parameter was sent, not by looking at the
+				// value that was extracted: an empty value is still a value (a header or query
+				// parameter sent empty is present; `required` and pointer-nilness depend on it)
+				for i, tk := range toks {
+					if tk.Tok != token.IDENT || tk.Lit != "isM_NameExists" || i+1 >= len(toks) || (toks[i+1].Tok != token.DEFINE && toks[i+1].Tok != token.ASSIGN) {
+						continue
+					}
+					for j := i + 2; j < len(toks) && j < i+16; j++ {
+						// (newlines are not tokens here: the right-hand side ends where the next statement begins)
+						if toks[j].Tok.IsKeyword() || toks[j].Tok == token.LBRACE || toks[j].Tok == token.SEMICOLON {
+							break
+						}
+						if toks[j].Tok == token.IDENT && j+1 < len(toks) && (toks[j+1].Tok == token.DEFINE || toks[j+1].Tok == token.ASSIGN) {
+							break
+						}
+						if toks[j].Tok == token.IDENT && strings.HasPrefix(toks[j].Lit, "M_ToLowerCamel_NameRaw") {
+							viol = fmt.Sprintf("%s %s arm: the presence flag is<Name>Exists is computed from the extracted value (%s): a parameter sent with an empty value counts as omitted - a pointer parameter becomes nil, a required one is rejected", en, loc, toks[j].Lit)
+						}
+					}
+				}
 				// only accessors of this location
 				own := map[string]bool{}
 				for _, a := range locAccessors[loc] {
